@@ -39,6 +39,7 @@ import CoreDhcp.Props.GenHandlers6
 import CoreDhcp.Props.GenSetups
 import CoreDhcp.Props.GenStart
 import CoreDhcp.Props.GenStorage
+import CoreDhcp.Props.GenEthernet
 open CoreDhcp
 #print axioms C20_offset_exact
 #print axioms C20_offset_symm
@@ -371,3 +372,11 @@ open CoreDhcp
 #print axioms GEN_storage_loadDB_eq
 #print axioms GEN_storage_register_eq
 #print axioms GEN_storage_key_roundtrip
+#print axioms GEN_eth_layers
+#print axioms GEN_eth_sendEthernet_eq
+#print axioms C15_frame
+#print axioms C15_frame_fields
+#print axioms C15_frame_none_iff
+#print axioms GEN_eth_frame
+#print axioms GEN_eth_payload_probes
+#print axioms GEN_eth_payload_not_toBytes
